@@ -41,8 +41,10 @@ func newEvalNode(et *ExecutingTask, n *pipeline.EvalNode, d NodeDiagnostic) (*Ev
 			return nil, fmt.Errorf("Failed to compile %v expression: %v", i, err)
 		}
 		en.expressions[i] = statefulExpr
-		refVars := ast.FindReferenceVariables(lambda.Expression)
-		en.refVarList[i] = refVars
+		// A name bound by an earlier expression of this node (its .as() name) refers to that result:
+		// it must not be re-filled from a field or tag of the same name before a later expression is evaluated,
+		// otherwise the later expression does not see the result and the result itself is lost.
+		en.refVarList[i] = withoutNames(ast.FindReferenceVariables(lambda.Expression), n.AsList[:i])
 	}
 	// Create a single pool for the combination of all expressions
 	en.scopePool = stateful.NewScopePool(ast.FindReferenceVariables(expressions...))
@@ -57,6 +59,21 @@ func newEvalNode(et *ExecutingTask, n *pipeline.EvalNode, d NodeDiagnostic) (*Ev
 
 	en.node.runF = en.runEval
 	return en, nil
+}
+
+// withoutNames returns the names that are not in exclude, in order.
+func withoutNames(names, exclude []string) []string {
+	kept := make([]string, 0, len(names))
+NAMES:
+	for _, name := range names {
+		for _, x := range exclude {
+			if x == name {
+				continue NAMES
+			}
+		}
+		kept = append(kept, name)
+	}
+	return kept
 }
 
 func (n *EvalNode) runEval(snapshot []byte) error {
